@@ -101,7 +101,7 @@ static int is_key (const char *t)
 }
 
 /* ------------------------------------------------------------ options / item state */
-enum { M_TOK, M_MUT, M_TRUNC, M_LONG };
+enum { M_TOK, M_MUT, M_TRUNC, M_LONG, M_OWN };
 static int o_mode, o_fmt, o_k, o_radius, o_comp, o_via, o_base, o_solve;
 static long n_items;
 static Buf g_in;                /* the input bytes of the current item */
@@ -352,6 +352,33 @@ static int gen_mut (long item)
 	snprintf (g_desc, sizeof g_desc, "mode=mut base=%s %s%s%s", bases[b].name, w1, w2[0] ? " ; " : "", w2);
 	return bad ? -1 : f;
 }
+/* ------------------------------------------------------------ mode=own: every token replaced by every other distinct token of the same file
+ * (cross references: a row name where a column name belongs, the name of a ranged row as OBJNAME, a section keyword as a name ...) */
+static int b_voc[32][400], b_nvoc[32];
+static void build_voc (int b)
+{
+	b_nvoc[b] = 0;
+	for (int i = 0; i < b_ntok[b]; i++) {
+		int dup = 0;
+		for (int k = 0; k < b_nvoc[b] && !dup; k++) { Tok *o = &b_tok[b][b_voc[b][k]]; if (o->tl == b_tok[b][i].tl && !memcmp (o->tx, b_tok[b][i].tx, (size_t) o->tl)) dup = 1; }
+		if (!dup && b_nvoc[b] < 400 && b_tok[b][i].tx[0] != '\n') b_voc[b][b_nvoc[b]++] = i;
+	}
+}
+static int gen_own (long item)
+{
+	int b = 0; while (item >= b_cum[b + 1]) b++;
+	long r = item - b_cum[b];
+	int nt = b_ntok[b], pos = (int) (r / b_nvoc[b]), v = b_voc[b][r % b_nvoc[b]];
+	Tok *src = b_tok[b];
+	if (src[pos].tl == src[v].tl && !memcmp (src[pos].tx, src[v].tx, (size_t) src[v].tl)) return -1;   /* same text: not an edit */
+	if (src[pos].tx[0] == '\n') return -1;
+	for (int i = 0; i < nt; i++) {
+		b_add (&g_in, src[i].ws, (size_t) src[i].wl);
+		if (i == pos) b_add (&g_in, src[v].tx, (size_t) src[v].tl); else b_add (&g_in, src[i].tx, (size_t) src[i].tl);
+	}
+	snprintf (g_desc, sizeof g_desc, "mode=own base=%s replace token %d \"%.*s\" by the file's own token \"%.*s\"", bases[b].name, pos, src[pos].tl > 20 ? 20 : src[pos].tl, src[pos].tx, src[v].tl > 20 ? 20 : src[v].tl, src[v].tx);
+	return bases[b].fmt;
+}
 static int gen_trunc (long item)
 {
 	int b = 0; while (item >= b_cum[b + 1]) b++;
@@ -367,7 +394,7 @@ static int gen_trunc (long item)
 static void rdr_init (void)
 {
 	const char *m = opt_str ("mode", "tok"), *f = opt_str ("fmt", NULL), *c = opt_str ("comp", ""), *v = opt_str ("via", "file");
-	o_mode = !strcmp (m, "mut") ? M_MUT : !strcmp (m, "trunc") ? M_TRUNC : !strcmp (m, "long") ? M_LONG : M_TOK;
+	o_mode = !strcmp (m, "mut") ? M_MUT : !strcmp (m, "trunc") ? M_TRUNC : !strcmp (m, "long") ? M_LONG : !strcmp (m, "own") ? M_OWN : M_TOK;
 	o_fmt = o_mode == M_TOK ? F_LP : F_ALL;
 	if (f) for (int i = 0; i < 4; i++) if (!strcmp (f, fmt_name[i])) o_fmt = i;
 	if (o_mode == M_TOK && o_fmt == F_ALL) o_fmt = F_LP;
@@ -379,7 +406,7 @@ static void rdr_init (void)
 	o_solve = (int) opt_int ("solve", 1);
 	if (o_mode != M_TRUNC) o_comp = 0;
 	if (o_comp) o_via = 0;      /* compression is decided by the file name: file route only */
-	for (int b = 0; b < NBASE; b++) { tokenize (b); b_len[b] = strlen (bases[b].text); }
+	for (int b = 0; b < NBASE; b++) { tokenize (b); b_len[b] = strlen (bases[b].text); build_voc (b); }
 	n_items = 0;
 	if (o_mode == M_TOK) n_items = pre_n[o_fmt] * seq_count (alpha_n[o_fmt], o_k);
 	else if (o_mode == M_LONG) { long_build (); n_items = n_long; }
@@ -387,7 +414,7 @@ static void rdr_init (void)
 		b_cum[b] = n_items;
 		if (base_selected (b)) {
 			if (o_mode == M_TRUNC && o_comp) compress_base (b);
-			n_items += o_mode == M_MUT ? mut_count (b) : (long) (o_comp ? b_comp[b].n : b_len[b]) + 1;
+			n_items += o_mode == M_MUT ? mut_count (b) : o_mode == M_OWN ? (long) b_ntok[b] * b_nvoc[b] : (long) (o_comp ? b_comp[b].n : b_len[b]) + 1;
 		}
 		b_cum[b + 1] = n_items;
 	}
@@ -677,6 +704,7 @@ static void rdr_run (long item)
 	switch (o_mode) {
 	case M_TOK: fmt = gen_tok (item); break;
 	case M_MUT: fmt = gen_mut (item); break;
+	case M_OWN: fmt = gen_own (item); break;
 	case M_TRUNC: fmt = gen_trunc (item); break;
 	default: fmt = gen_long (item); break;
 	}
